@@ -11,7 +11,8 @@ SYMS = ['BTC-USDT', 'ETH-USDT']
 @st.composite
 def session(draw, minutes=(60, 200), kinds=('futures', 'spot'), tfs=('1m', '3m', '5m', '15m'), data_tfs=('3m', '5m', '15m', '30m', '1h'),
             max_symbols=2, max_data=2, warmup=(False, True), fast=(False, True), modes=('cross',), leverages=(1, 2, 5, 10, 25),
-            fees=(0.0, 0.0004, 0.001, 0.0075), structural=True, program=None, same_tf=False, align_len=False, min_steps=8, min_symbols=1):
+            fees=(0.0, 0.0004, 0.001, 0.0075), structural=True, program=None, same_tf=False, align_len=False, min_steps=8, min_symbols=1,
+            data_only_symbol=False):
     kind = draw(st.sampled_from(kinds))
     futures = kind == 'futures'
     nsym = draw(st.integers(min_symbols, max_symbols))
@@ -24,6 +25,11 @@ def session(draw, minutes=(60, 200), kinds=('futures', 'spot'), tfs=('1m', '3m',
         d = dict(symbol=draw(st.sampled_from(syms)), timeframe=draw(st.sampled_from(data_tfs)))
         if d not in data and not any(r['symbol'] == d['symbol'] and r['timeframe'] == d['timeframe'] for r in routes):
             data.append(d)
+    extra_sym = None
+    if data_only_symbol and draw(st.booleans()):
+        # a symbol that is only observed (data route), never traded
+        extra_sym = 'LTC-USDT'
+        data.append(dict(symbol=extra_sym, timeframe=draw(st.sampled_from(data_tfs))))
     all_tf = [r['timeframe'] for r in routes] + [d['timeframe'] for d in data]
     max_tf = max(TF_MIN[t] for t in all_tf)
     lo = max(minutes[0], min_steps * max(TF_MIN[r['timeframe']] for r in routes))
@@ -46,6 +52,11 @@ def session(draw, minutes=(60, 200), kinds=('futures', 'spot'), tfs=('1m', '3m',
         steps = n // TF_MIN[[r for r in routes if r['symbol'] == s][0]['timeframe']] + 1
         prog = program or {}
         scripts[s] = draw(gp.script(min(steps, 60), futures, c['tick'], unit, **prog))
+    if extra_sym:
+        c = draw(gc.structural(n) if structural else gc.prng(n))
+        cands[extra_sym] = gc.expand(c)
+        ticks[extra_sym] = c['tick']
+        syms = syms + [extra_sym]
     warm = None
     if draw(st.sampled_from(warmup)):
         k = draw(st.integers(1, 3))
@@ -63,5 +74,5 @@ def session(draw, minutes=(60, 200), kinds=('futures', 'spot'), tfs=('1m', '3m',
                 start_ticks = round(cands[s][0][1] / ticks[s])
                 warm[s] = gc.warmup_rows(draw(st.integers(0, 2 ** 16)), wn, ticks[s], start_ticks)
     return dict(cfg=cfg, routes=routes, data=data, candles=cands, warmup=warm, scripts=scripts,
-                fast=draw(st.sampled_from(fast)), n=n)
+                fast=draw(st.sampled_from(fast)), n=n, ticks=ticks)
 
